@@ -430,6 +430,29 @@ func runC17(res *lp.Result) {
 					Impl: trunc(fmt.Sprintf("%+v", cp.Interface())), Model: trunc(fmt.Sprintf("%+v", orig.Interface()))})
 				continue
 			}
+			// DeepCopyInto a target that is in use (a pooled object that holds an earlier value with every field set): afterwards it
+			// must equal the original — nothing of the earlier value may show through
+			if m := orig.MethodByName("DeepCopyInto"); m.IsValid() && m.Type().NumIn() == 1 && m.Type().In(0) == orig.Type() {
+				tp := &populator{rng: lp.NewRng(sub ^ 0x9e3779b97f4a7c15), full: true, msgs: msgs, dts: dts}
+				target := reflect.New(t)
+				tp.fill(target.Elem(), 0)
+				perr := ""
+				func() {
+					defer func() {
+						if r := recover(); r != nil {
+							perr = fmt.Sprint(r)
+						}
+					}()
+					m.Call([]reflect.Value{target})
+				}()
+				res.Count("deep-copy-into-used-target")
+				if perr != "" {
+					res.Add(lp.Finding{Kind: "violation", What: "DeepCopyInto panics: " + firstWords(perr), Input: id})
+				} else if !reflect.DeepEqual(target.Interface(), orig.Interface()) {
+					res.Add(lp.Finding{Kind: "violation", What: "DeepCopyInto a " + typeLabel(t) + " that already holds a value does not make it equal to the original (parts of the old value remain)", Input: id,
+						Impl: trunc(fmt.Sprintf("%+v", target.Interface())), Model: trunc(fmt.Sprintf("%+v", orig.Interface()))})
+				}
+			}
 			// shared references, position by position
 			here := map[string]bool{}
 			sharedPaths(orig.Elem(), cp.Elem(), "", here)
